@@ -235,10 +235,11 @@ def r_slot_fresh(F, V):
     else:
         ok = False
         for i, t in b.calls():
-            if (callee_path(t) or "").endswith("record_item_insert_at") and len(t["args"]) >= 3:
-                S = sources(b, t["args"][2])
-                if S.has_call("RawTableInner::ctrl"):
-                    ok = True
+            if (callee_path(t) or "").endswith("record_item_insert_at"):
+                # the old control byte is whichever argument (or struct operand) is loaded through ctrl(index) here
+                for a in t["args"][1:]:
+                    if sources(b, a).has_call("RawTableInner::ctrl"):
+                        ok = True
         if ok:
             R.inst("raw::RawTable::insert_in_slot|old_ctrl", "old control byte is loaded from ctrl(slot.index) at insert time (remove-then-reinsert re-accounts growth_left)", "ok", True, where(b))
         else:
